@@ -202,6 +202,10 @@ func (x *Exec) callFunction(fn *ssa.Function, args []Value, env []Value) Value {
 		}
 		name := fn.String()
 		if in, ok := intrinsics[name]; ok {
+			if dbgWhere {
+				x.c.dbgStack = append(x.c.dbgStack, name)
+				defer func() { x.c.dbgStack = x.c.dbgStack[:len(x.c.dbgStack)-1] }()
+			}
 			return in(x, args)
 		}
 		if fn.Blocks == nil || !interpretedStd[fn.Pkg.Pkg.Path()] {
@@ -215,6 +219,10 @@ func (x *Exec) callFunction(fn *ssa.Function, args []Value, env []Value) Value {
 		panic(pathAbort{"unwind: recursion depth exceeded in " + fn.String()})
 	}
 	defer func() { x.depth-- }()
+	if dbgWhere {
+		x.c.dbgStack = append(x.c.dbgStack, fn.String())
+		defer func() { x.c.dbgStack = x.c.dbgStack[:len(x.c.dbgStack)-1] }()
+	}
 	fr := &Frame{fn: fn, env: make(map[uintptr]Value, 32)}
 	for i, p := range fn.Params {
 		fr.env[vkey(p)] = args[i]
